@@ -24,7 +24,7 @@ Mechanisms:
 {mech}
 
 YOUR TASK: produce ONE realistic change (a plausible bug a maintainer could introduce: a refactoring slip, an off-by-one, a dropped or weakened side-condition, a wrong variable, a stale cache, a missing rename, ...) to the source under {wt}/src/exo that BREAKS this property, while
-  (a) the package still imports and the repository's existing test suite still passes:  cd {wt} && PYTHONPATH={wt}/src /venv/bin/python -m pytest -q -p no:cacheprovider -x -n 6 tests/   (takes several minutes; all tests that pass without your change must pass with it; golden-file tests compare exact output so your change must not alter output on tested inputs), and
+  (a) the package still imports and the repository's existing test suite still passes:  cd {wt} && PATH=/venv/bin:$PATH PYTHONPATH={wt}/src /venv/bin/python -m pytest -q -p no:cacheprovider -x -n 6 tests/   (the PATH prefix is needed: ninja/cmake live in /venv/bin)   (takes several minutes; all tests that pass without your change must pass with it; golden-file tests compare exact output so your change must not alter output on tested inputs), and
   (b) the breakage needs something SPECIFIC to manifest — a particular multi-step sequence of scheduling operations, an unusual input/shape/cursor position, a particular combination of features, or two cooperating sites that each look fine alone — NOT something ordinary use exposes at once.
 {('Direction to explore (a suggestion, pick something else if it does not work out): ' + hint) if hint else ''}
 Deliverables, written to /tmp/mw/out_{prop}_{tag}/ :
